@@ -191,6 +191,7 @@ def concurrent_instants(report, stats, seen, tier):
         contents = oracle.Contents()
         menu = conc.Menu(contents, store_alg=alg_name)
         big = contents.add(bytes(range(256)) * 1200)          # several copy buffers long
+        bigdoc = contents.add(b"<second document, several buffers long/>" * 900)
         d = conc.d
         supplied = {contents.by_tok[t] for t in contents.by_tok}
         pairs = [
@@ -203,11 +204,14 @@ def concurrent_instants(report, stats, seen, tier):
              [store_metadata("p1", d(menu.V2)), store_metadata("p1", d(menu.V1))]),
             ("doc-present", [store_object("p1", d(menu.X)), store_metadata("p1", d(menu.V1))],
              [store_metadata("p1", d(menu.V2)), delete_metadata("p1", None)]),
+            # one pid, two formats: different documents, different names to claim
+            ("doc-absent", [store_object("p1", d(menu.X))],
+             [store_metadata("p1", d(menu.V2)), store_metadata("p1", d(bigdoc), "f2")]),
         ]
         for sn, start, calls in pairs:
             for first in (0, 1):
                 prev = None
-                for k in range(0, 40):
+                for k in range(0, 60):
                     bad = []
                     inplace = []
                     n_ev = [0]
@@ -218,7 +222,8 @@ def concurrent_instants(report, stats, seen, tier):
                             _inplace.append(rel)
                         for pr in permanent_files_ok(root, alg, supplied):
                             _bad.append("after %s %s: %s" % (kind, rel[-40:], pr))
-                    ex = conc.execute(contents, cfg, start, calls, conc.cut_chooser(first, k), on_event=on_event)
+                    ex = conc.execute(contents, cfg, start, calls, conc.cut_chooser(first, k), on_event=on_event,
+                                      tmp_write_points=True)
                     stats["conc_execs"] = stats.get("conc_execs", 0) + 1
                     stats["conc_instants"] = stats.get("conc_instants", 0) + n_ev[0]
                     if ex["schedule"] == prev or ex["outcome"] != "ok":
